@@ -95,7 +95,7 @@ PLoop(toks, pos, minp, left) ==
                 ELSE LET c == PExpr(toks, pos + 1, P_IF) IN
                      IF ~c.ok THEN c
                      ELSE IF Tok(toks, c.pos) # "else" THEN ParseError
-                     ELSE LET el == PExpr(toks, c.pos + 1, 0) IN
+                     ELSE LET el == PExpr(toks, c.pos + 1, P_IF - 1) IN   \* ends at a comma or slice colon
                           IF ~el.ok THEN el
                           ELSE PLoop(toks, el.pos, minp, IfE(Unfinalize(c.e), left, Unfinalize(el.e)))
             ELSE stop
